@@ -13,7 +13,8 @@ From Coq Require Import List NArith ZArith Bool.
 Import ListNotations.
 From S4.Spec Require Import WindowSpec.
 From S4.Model Require Import Retain Search RetainSearch.
-From S4.Proofs Require Import RetainProofs RetainLayout RetainLag SearchProofs RetainSearchProofs RetainSearchFuel.
+From S4.Proofs Require Import RetainProofs RetainLayout RetainLag SearchProofs RetainSearchProofs RetainSearchFuel
+  RetainWindowProofs.
 Open Scope N_scope.
 
 (* The repaired policy P_retry (failed releases are retried; a block is also released with the
@@ -266,3 +267,288 @@ Theorem C17_windowed_example_domain :
   layout_ok 64 ex_layout /\ Forall (fun x => snd x = true -> 2 <= fst x) ex_layout.
 Proof. exact windowed_example_domain. Qed.
 Print Assumptions C17_windowed_example_domain.
+
+(* ====================================================================== every kind of window *)
+
+(* PLAIN file, -a and / or -b (ta, tb: each optional).  The first message after B is found and
+   stored but not sent, and the driver stops.  Repaired policy, every layout, block size, window,
+   H >= 1 and every stage-3 schedule respecting H: the bounds of C17_windowed_bounded with H + 1 in
+   place of H (the message that is found but not sent). *)
+Theorem C17_windowed2_bounded : forall bs layout H c ta tb evs,
+  pol c = P_retry -> streamed c = false -> layout_ok bs layout -> 1 <= H ->
+  let ms := layout_msgs bs layout in
+  let span := max_span ms in let ml := max_lines ms in
+  let K := 9 + 2 * N.size (wfilesz ms) in
+  w_run_sched_ok2 H c bs ms ta tb evs = true ->
+  let T := w_run2 c bs ms ta tb evs in
+  hs (wb T) <= bound_syslines bs span + K /\
+  hl (wb T) <= bound_lines bs span ml (H + 1) + K * (2 * ml) /\
+  hb (wb T) <= bound_blocks bs span (H + 1) + (K * (2 * ml * (span + 1)) + 1) /\
+  lenN (syslines (wb T)) <= hs (wb T) /\ lenN (lines (wb T)) <= hl (wb T) /\ lenN (blocks (wb T)) <= hb (wb T).
+Proof. exact retry_windowed2_bounded_layout. Qed.
+Print Assumptions C17_windowed2_bounded.
+
+(* with -a only the general run is the run of C17_windowed_bounded *)
+Theorem C17_windowed2_is_windowed : forall c bs ms t evs,
+  w_run2 c bs ms (Some t) None evs = w_run c bs ms t evs.
+Proof. exact w_run2_is_w_run. Qed.
+Print Assumptions C17_windowed2_is_windowed.
+
+(* ANY container read from its start with -b only (sw_run with ta = None is the streaming run that
+   stops at the first message after B): the streaming bounds with H + 1, no logarithmic term *)
+Theorem C17_window_b_bounded : forall bs layout H c tb evs,
+  pol c = P_retry -> layout_ok bs layout -> 1 <= H ->
+  let ms := layout_msgs bs layout in
+  let span := max_span ms in let ml := max_lines ms in
+  sched_ok_b H c tb (sw_start c ms None tb) evs = true ->
+  let s := sw_run c ms None tb evs in
+  lenN (syslines s) <= hs s /\ hs s <= bound_syslines bs span /\
+  lenN (lines s) <= hl s /\ hl s <= bound_lines bs span ml (H + 1) /\
+  lenN (blocks s) <= hb s /\ hb s <= bound_blocks bs span (H + 1).
+Proof. exact sw_b_bounded_layout. Qed.
+Print Assumptions C17_window_b_bounded.
+
+(* FINDING F9d (-a on a streamed file).  Stage 2 is ONE linear search (find_sysline for every message
+   from the start of the file up to the first one at or after A) and drop_data_try is only called in
+   the stage-3 loop: for EVERY release policy (the repaired one included), every container, every
+   message sequence and every window, all the messages before A are stored at the same time at the
+   end of stage 2, and `syslines high` is at least their number: linear in the part of the file
+   before the window. *)
+Theorem C17_window_streamed_refuted : forall c ms ta tb evs,
+  exists bef rest, ms = bef ++ rest /\ Forall (fun m => before_a ta m = true) bef /\
+    match rest with m :: _ => before_a ta m = false | [] => True end /\
+    syslines (lin_search c ta (length ms) (init ms)) = bef /\
+    lenN bef <= hs (sw_run c ms ta tb evs).
+Proof. exact window_linear_search_keeps_prefix. Qed.
+Print Assumptions C17_window_streamed_refuted.
+
+(* ... while the repaired DRIVER (drop_data_try also inside the linear search: stage 2 is the
+   stage-3 loop with messages that are not sent) has exactly the streaming bounds of
+   C17_retry_bounded for every layout, window position and schedule: no logarithmic term *)
+Theorem C17_window_streamed_repaired_bounded : forall bs layout H c nbefore evs,
+  pol c = P_retry -> layout_ok bs layout ->
+  let ms := layout_msgs bs layout in
+  let span := max_span ms in let ml := max_lines ms in
+  sched_ok H c (init ms) (flat_map (fun k => [EW; ER k]) (nseq 0 nbefore) ++ evs) = true ->
+  let s := sw_run_repaired c ms nbefore evs in
+  lenN (syslines s) <= hs s /\ hs s <= bound_syslines bs span /\
+  lenN (lines s) <= hl s /\ hl s <= bound_lines bs span ml H /\
+  lenN (blocks s) <= hb s /\ hb s <= bound_blocks bs span H /\
+  lenN (pending s) <= H.
+Proof. exact sw_repaired_bounded_layout. Qed.
+Print Assumptions C17_window_streamed_repaired_bounded.
+
+(* the hypotheses are satisfiable and the numbers on the example layout (163 messages, block size
+   64, the consumer 7 behind): -b 100 streamed 2 / 15 / 6; -a 80 streamed: 80 messages stored by
+   the linear search, 2 / 144 / 83 under BOTH release policies; the repaired driver 2 / 15 / 6;
+   -a 80 -b 120 plain: repaired 20 / 21 / 9, current code 63 / 79 (F9a) *)
+Theorem C17_window_examples :
+  let ms := layout_msgs 64 ex_layout in
+  sched_ok_b 7 retry_gz (Some 100%Z) (sw_start retry_gz ms None (Some 100%Z)) (w_sched_lag 7 0 162) = true /\
+  marks (sw_run retry_gz ms None (Some 100%Z) (w_sched_lag 7 0 162)) = (2, 15, 6) /\
+  lenN (syslines (lin_search retry_gz (Some 80%Z) (length ms) (init ms))) = 80 /\
+  marks (sw_run retry_gz ms (Some 80%Z) None (w_sched_lag 7 80 82)) = (2, 144, 83) /\
+  marks (sw_run cur_gz ms (Some 80%Z) None (w_sched_lag 1 80 82)) = (2, 144, 83) /\
+  sched_ok 7 retry_gz (init ms) (flat_map (fun k => [EW; ER k]) (nseq 0 80) ++ (EW :: w_sched_lag 7 80 82)) = true /\
+  marks (sw_run_repaired retry_gz ms 80 (EW :: w_sched_lag 7 80 82)) = (2, 15, 6) /\
+  w_run_sched_ok2 7 retry_plain 64 ms (Some 80%Z) (Some 120%Z) (w_sched_lag 7 80 82) = true /\
+  wmarks (w_run2 retry_plain 64 ms (Some 80%Z) (Some 120%Z) (w_sched_lag 7 80 82)) = (20, 21, 9) /\
+  wmarks (w_run2 cur_plain 64 ms (Some 80%Z) (Some 120%Z) (w_sched_lag 7 80 82)) = (63, 79, 9).
+Proof. exact window_examples. Qed.
+Print Assumptions C17_window_examples.
+
+(* ====================================================================== the two models of the stores agree *)
+(* Model/Caches.v (WP-A) is the cache state of the readers as a state machine over the BYTES of a
+   file; Model/Retain.v is the retained sets over the LAYOUT of a file.  Qualified names below:
+   Caches.* is that machine, RetainCaches.* the file / oracle / drop plan that put the two side by
+   side, RetainCachesAgree.* / RetainCachesLayout.* the statements' own vocabulary (spelled out by
+   the three _explicit theorems). *)
+From S4.Base Require Chunk.
+From S4.Model Require Lines Caches RetainCaches.
+From S4.Proofs Require CachesProofs RetainKeepsUp RetainCachesAgree RetainCachesLayout.
+
+(* what "agree" says: the five counters of summary() equal the five marks, the three stores have
+   the same sizes, and no release failed *)
+Theorem C17_agree_explicit : forall C s, RetainCachesAgree.agree0 C s <->
+  (Caches.bc_highest (Caches.b_cnt (Caches.l_blk (Caches.s_lr C))) = hb s /\
+   Caches.lc_highest (Caches.l_cnt (Caches.s_lr C)) = hl s /\
+   Caches.sc_highest (Caches.s_cnt C) = hs s /\ Caches.sc_drop_ok (Caches.s_cnt C) = dok s /\
+   Caches.sc_drop_err (Caches.s_cnt C) = derr s /\
+   Chunk.lenN (Caches.b_blocks (Caches.l_blk (Caches.s_lr C))) = lenN (blocks s) /\
+   Chunk.lenN (Caches.l_lines (Caches.s_lr C)) = lenN (lines s) /\
+   Chunk.lenN (Caches.s_syslines C) = lenN (syslines s)) /\ derr s = 0.
+Proof. exact RetainCachesLayout.agree0_explicit. Qed.
+Print Assumptions C17_agree_explicit.
+
+(* the domain: layout_ok, dated lines have two bytes or more (a line of one byte is only its
+   newline), and there is a line *)
+Theorem C17_layout_dom_explicit : forall bs layout, RetainCachesLayout.layout_dom bs layout <->
+  (0 < bs /\ Forall (fun x => 1 <= fst x) layout /\ match layout with (_, d) :: _ => d = true | [] => True end) /\
+  Forall (fun x => snd x = true -> 2 <= fst x) layout /\ layout <> [].
+Proof. exact RetainCachesLayout.layout_dom_explicit. Qed.
+Print Assumptions C17_layout_dom_explicit.
+
+(* a message sequence describes a file: its lines are lines of the file (CachesProofs.span), block
+   numbers are offsets / bs, the lines follow each other from offset 0 to the end of the file, a
+   message begins with a line the oracle dates and goes on with lines it does not *)
+Theorem C17_realizes_explicit : forall bs f dated ms, RetainCachesAgree.realizes bs f dated ms <->
+  Forall (fun l => CachesProofs.span f (lbeg l) (lend l) /\ lfb l = lbeg l / bs /\ llb l = lend l / bs) (file_lines ms) /\
+  Retain.chain (fun a b => lbeg b = lend a + 1) (file_lines ms) /\
+  match ms with m :: _ => lbeg (mfirst m) = 0 | [] => True end /\
+  match ms with m :: r => mend (last r m) + 1 = Chunk.lenN f | [] => True end /\
+  Forall (fun m => (exists z, dated (Chunk.slice f (lbeg (mfirst m)) (lend (mfirst m) + 1)) = Some z) /\
+                   Forall (fun l => dated (Chunk.slice f (lbeg l) (lend l + 1)) = None) (mbody m)) ms.
+Proof. exact RetainCachesLayout.realizes_explicit. Qed.
+Print Assumptions C17_realizes_explicit.
+
+(* THE AGREEMENT.  Plain file, the stage driver's call pattern (Caches.c_stream: find_sysline at 0,
+   then at each returned offset; drop_data_try(the message before the one just found) where the
+   plan says so) with the plan that SyslogProcessor::drop_data produces, a consumer that keeps up
+   (sched_lag 1): for EVERY file f, date oracle and well-formed message sequence that describes f,
+   after the whole run the cache machine reports the marks of the retained-set model and stores as
+   many blocks, lines and syslines ... *)
+Theorem C17_caches_retain_agree_file : forall bs f, 0 < bs -> 0 < Chunk.lenN f ->
+  forall dated span ml ms, wf bs span ml ms -> map mkey ms = nseq 0 (length ms) ->
+  RetainCachesAgree.realizes bs f dated ms -> ms <> [] ->
+  RetainCachesAgree.agree0
+    (fst (Caches.c_stream dated bs f (RetainCaches.drop_plan ms) Caches.sr_init))
+    (run cur_plain (init ms) (sched_lag 1 (length ms))).
+Proof. exact RetainCachesAgree.stream_agree. Qed.
+Print Assumptions C17_caches_retain_agree_file.
+
+(* ... and after EVERY iteration of the driver's loop (c_stream_upto j = c_stream whose loop stops
+   after j iterations; the retained-set model after the first j + 1 iterations of its schedule): the
+   simulation relation between the two machines (RetainCachesAgree.Rel) is kept by every find and
+   every drop_data *)
+Theorem C17_caches_retain_agree_each : forall bs f, 0 < bs -> 0 < Chunk.lenN f ->
+  forall dated span ml ms, wf bs span ml ms -> map mkey ms = nseq 0 (length ms) ->
+  RetainCachesAgree.realizes bs f dated ms -> forall j, ms <> [] ->
+  RetainCachesAgree.agree0
+    (fst (RetainCaches.c_stream_upto j dated bs f (RetainCaches.drop_plan ms) Caches.sr_init))
+    (run cur_plain (init ms) (sched_lag 1 (Nat.min (S j) (length ms)))).
+Proof. exact RetainCachesAgree.stream_agree_upto. Qed.
+Print Assumptions C17_caches_retain_agree_each.
+
+Theorem C17_c_stream_upto_full : forall dated bs f plan st,
+  Caches.c_stream dated bs f plan st = RetainCaches.c_stream_upto (S (length f)) dated bs f plan st.
+Proof. exact (fun dated bs f plan st => eq_refl). Qed.
+Print Assumptions C17_c_stream_upto_full.
+
+(* for EVERY layout of the domain: the file layout_file layout (a dated line begins with 'D'), the
+   oracle dD (first byte 'D'), the messages layout_msgs bs layout *)
+Theorem C17_caches_retain_agree : forall bs layout, RetainCachesLayout.layout_dom bs layout ->
+  let ms := layout_msgs bs layout in
+  RetainCachesAgree.agree0
+    (fst (Caches.c_stream RetainCaches.dD bs (RetainCaches.layout_file layout) (RetainCaches.drop_plan ms) Caches.sr_init))
+    (run cur_plain (init ms) (sched_lag 1 (length ms))).
+Proof. exact RetainCachesLayout.caches_retain_agree. Qed.
+Print Assumptions C17_caches_retain_agree.
+
+Theorem C17_caches_retain_agree_layout_each : forall bs layout j, RetainCachesLayout.layout_dom bs layout ->
+  let ms := layout_msgs bs layout in
+  RetainCachesAgree.agree0
+    (fst (RetainCaches.c_stream_upto j RetainCaches.dD bs (RetainCaches.layout_file layout) (RetainCaches.drop_plan ms) Caches.sr_init))
+    (run cur_plain (init ms) (sched_lag 1 (Nat.min (S j) (length ms)))).
+Proof. exact RetainCachesLayout.caches_retain_agree_upto. Qed.
+Print Assumptions C17_caches_retain_agree_layout_each.
+
+(* the file realises the layout *)
+Theorem C17_layout_realizes : forall bs layout, RetainCachesLayout.layout_dom bs layout ->
+  RetainCachesAgree.realizes bs (RetainCaches.layout_file layout) RetainCaches.dD (layout_msgs bs layout).
+Proof. exact RetainCachesLayout.layout_realizes. Qed.
+Print Assumptions C17_layout_realizes.
+
+(* WHAT CARRIES OVER.  (1) The only way the current policy departs from the repaired one in what it
+   stores of messages and lines is a failed release: every input, every schedule, any two
+   configurations with these policies (whatever their containers), from states that agree on
+   everything but the blocks *)
+Theorem C17_cur_is_retry_without_err : forall cc cr evs, pol cc = P_cur -> pol cr = P_retry -> forall sc sr,
+  RetainKeepsUp.eqx sc sr -> pending sc = [] -> derr (run cc sc evs) = derr sc ->
+  RetainKeepsUp.eqx (run cc sc evs) (run cr sr evs).
+Proof. exact RetainKeepsUp.cur_is_retry_without_err. Qed.
+Print Assumptions C17_cur_is_retry_without_err.
+
+Theorem C17_eqx_explicit : forall s s', RetainKeepsUp.eqx s s' <->
+  lines s' = lines s /\ syslines s' = syslines s /\ pending s' = pending s /\ held s' = held s /\
+  hl s' = hl s /\ hs s' = hs s /\ nread s' = nread s /\ front s' = front s /\ todo s' = todo s /\
+  stage2 s' = stage2 s /\ wprev s' = wprev s /\ dok s' = dok s /\ derr s' = derr s.
+Proof. exact (fun s s' => iff_refl _). Qed.
+Print Assumptions C17_eqx_explicit.
+
+(* a consumer that keeps up never has more than one message referenced *)
+Theorem C17_keeps_up_sched_ok : forall c ms, map mkey ms = nseq 0 (length ms) ->
+  sched_ok 1 c (init ms) (sched_lag 1 (length ms)) = true.
+Proof. exact RetainKeepsUp.keeps_up_sched_ok. Qed.
+Print Assumptions C17_keeps_up_sched_ok.
+
+(* so the current policy under such a consumer, when no release failed, has the bounds of the
+   repaired policy (H = 1) for messages and lines *)
+Theorem C17_cur_keeps_up_bounded : forall bs span ml ms c, pol c = P_cur -> wf bs span ml ms ->
+  map mkey ms = nseq 0 (length ms) ->
+  let s := run c (init ms) (sched_lag 1 (length ms)) in
+  derr s = 0 ->
+  lenN (syslines s) <= hs s /\ hs s <= bound_syslines bs span /\
+  lenN (lines s) <= hl s /\ hl s <= bound_lines bs span ml 1.
+Proof. exact RetainKeepsUp.cur_keeps_up_bounded. Qed.
+Print Assumptions C17_cur_keeps_up_bounded.
+
+Theorem C17_keeps_up_example :
+  let ms := layout_msgs 64 ex_layout in
+  let n := length ms in
+  wfb 64 (max_span ms) (max_lines ms) ms = true /\
+  derr (run cur_plain (init ms) (sched_lag 1 n)) = 0 /\
+  marks (run cur_plain (init ms) (sched_lag 1 n)) = (13, 12, 6) /\
+  marks (run retry_plain (init ms) (sched_lag 1 n)) = (11, 12, 6) /\
+  bound_syslines 64 (max_span ms) = 769 /\ bound_lines 64 (max_span ms) (max_lines ms) 1 = 2315 /\
+  derr (run cur_plain (init ms) (sched_lag 7 n)) = 159 /\
+  marks (run cur_plain (init ms) (sched_lag 7 n)) = (216, 283, 6) /\
+  marks (run retry_plain (init ms) (sched_lag 7 n)) = (13, 15, 6).
+Proof. exact RetainKeepsUp.keeps_up_example. Qed.
+Print Assumptions C17_keeps_up_example.
+
+(* (2) THE BOUNDS ON THE CACHE MACHINE: for every layout of the domain and every block size, the
+   byte-level machine of the CURRENT code, driven as the stage driver drives it on a plain file
+   whose consumer keeps up, never fails a release and keeps syslines high / lines high under the
+   bounds of C17_retry_bounded with H = 1 *)
+Theorem C17_caches_bounded : forall bs layout, RetainCachesLayout.layout_dom bs layout ->
+  let ms := layout_msgs bs layout in
+  let span := max_span ms in let ml := max_lines ms in
+  let C := fst (Caches.c_stream RetainCaches.dD bs (RetainCaches.layout_file layout) (RetainCaches.drop_plan ms) Caches.sr_init) in
+  Caches.sc_drop_err (Caches.s_cnt C) = 0 /\
+  Chunk.lenN (Caches.s_syslines C) <= Caches.sc_highest (Caches.s_cnt C) /\
+  Caches.sc_highest (Caches.s_cnt C) <= bound_syslines bs span /\
+  Chunk.lenN (Caches.l_lines (Caches.s_lr C)) <= Caches.lc_highest (Caches.l_cnt (Caches.s_lr C)) /\
+  Caches.lc_highest (Caches.l_cnt (Caches.s_lr C)) <= bound_lines bs span ml 1.
+Proof. exact RetainCachesLayout.caches_bounded. Qed.
+Print Assumptions C17_caches_bounded.
+
+(* (3) FINDING F9b on the cache machine: when every line lies inside one block it keeps every block
+   it has read (no bound on `blocks high` carries over to the current code) *)
+Theorem C17_caches_edge_refuted : forall bs layout, RetainCachesLayout.layout_dom bs layout ->
+  let ms := layout_msgs bs layout in
+  Forall single_block ms ->
+  let C := fst (Caches.c_stream RetainCaches.dD bs (RetainCaches.layout_file layout) (RetainCaches.drop_plan ms) Caches.sr_init) in
+  let s := run cur_plain (init ms) (sched_lag 1 (length ms)) in
+  Chunk.lenN (Caches.b_blocks (Caches.l_blk (Caches.s_lr C))) = nread s.
+Proof. exact RetainCachesLayout.caches_edge_keeps_all_blocks. Qed.
+Print Assumptions C17_caches_edge_refuted.
+
+(* the hypotheses are satisfiable; both machines evaluated on 12 lines / 430 bytes at block size 16 *)
+Theorem C17_caches_examples :
+  RetainCachesLayout.layout_dom 64 ex_layout /\
+  RetainCachesLayout.layout_dom 512 (edge_layout 200) /\ Forall single_block (layout_msgs 512 (edge_layout 200)) /\
+  RetainCachesLayout.layout_dom 16 RetainCachesLayout.agree_example_layout /\
+  (let ms := layout_msgs 16 RetainCachesLayout.agree_example_layout in
+   let C := fst (Caches.c_stream RetainCaches.dD 16 (RetainCaches.layout_file RetainCachesLayout.agree_example_layout)
+                   (RetainCaches.drop_plan ms) Caches.sr_init) in
+   let s := run cur_plain (init ms) (sched_lag 1 (length ms)) in
+   RetainCaches.drop_plan ms = [false; true; true; true; true; true; true] /\
+   (Caches.bc_highest (Caches.b_cnt (Caches.l_blk (Caches.s_lr C))), Caches.lc_highest (Caches.l_cnt (Caches.s_lr C)),
+    Caches.sc_highest (Caches.s_cnt C), Caches.sc_drop_ok (Caches.s_cnt C), Caches.sc_drop_err (Caches.s_cnt C)) = (18, 8, 5, 3, 0) /\
+   (hb s, hl s, hs s, dok s, derr s) = (18, 8, 5, 3, 0) /\
+   (Chunk.lenN (Caches.b_blocks (Caches.l_blk (Caches.s_lr C))), Chunk.lenN (Caches.l_lines (Caches.s_lr C)),
+    Chunk.lenN (Caches.s_syslines C)) = (18, 6, 5) /\
+   (lenN (blocks s), lenN (lines s), lenN (syslines s)) = (18, 6, 5) /\
+   bound_syslines 16 (max_span ms) = 257 /\ bound_lines 16 (max_span ms) (max_lines ms) 1 = 779).
+Proof. exact RetainCachesLayout.caches_examples. Qed.
+Print Assumptions C17_caches_examples.
